@@ -143,7 +143,7 @@ def _compression_(psi, target, method,
         raise YastnError('Compression: method %s not recognized.' % method)
 
     for sweep in range(1, max_sweeps + 1):
-        if method == '1site':
+        if method == '1site' or psi.N == 1:  # a chain of one site has no pair of sites to update
             _compression_1site_sweep_(env, Schmidt=Schmidt)
         else: # method == '2site':
             max_dw = _compression_2site_sweep_(env, opts_svd=opts_svd, Schmidt=Schmidt)
